@@ -78,6 +78,9 @@ package builder
 //@   ghost_entry $walked = false
 //@   invariant@1 inv: LInv(listener) && RInv(listener) && listener.Grl == grl && grl != nil && listener.KnowledgeBase == knowledgeBase && listener.ErrorCallback == errReporter && (forall k string :: has(grl.RuleEntries, k) == $dom[k])
 //@   invariant@1 errs: len(errReporter.Errors) >= 0
+// C17: "then every rule of the text is in the knowledge base under its name" - whatever AddRuleEntry answers, the name is filed afterwards
+//@   invariant@1[C17] filed: forall j int :: 0 <= j && j < $i ==> has(knowledgeBase.RuleEntries, $keys[j])
+//@   ensures[C17] allfiled: err == nil ==> (forall k string :: has(as($walkL, *antlr.GruleV3ParserListener).Grl.RuleEntries, k) ==> has(as($walkL, *antlr.GruleV3ParserListener).KnowledgeBase.RuleEntries, k))
 //@   ensures[C17] parsed: err == nil ==> $parsed && $walked && $walkTreeFromParse
 //@   ensures[C17] reporteronparser: err == nil ==> $parseP[as($walkL, *antlr.GruleV3ParserListener).ErrorCallback]
 //@   ensures[C17] reporteronlexer: err == nil ==> $parseL[as($walkL, *antlr.GruleV3ParserListener).ErrorCallback]
